@@ -29,9 +29,16 @@ fn roundtrip(tx: &tir::Tx, rc: &mut RCase, nodes: usize, kinds: usize, origin: &
     let back = match decoded {
         Ok(AnyTir::V1Beta0(t)) => t,
         Err(e) => {
+            // recorded: the decoder stops at 256 levels of nesting, the encoder does not
+            let depth = crate::dec::cbor_nesting_depth(&bytes).unwrap_or(0);
+            if depth > 256 && format!("{:?}", e).contains("RecursionLimitExceeded") && rc.tolerated("decode_of_own_encoding_fails:nesting_beyond_decoder_limit") {
+                rc.label("known:nesting_beyond_decoder_limit");
+                return Ok(());
+            }
             let mut j = rendered();
-            j["bytes"] = json!(hex::encode(&bytes));
-            return Err(Failure::new("decode_of_own_encoding_fails", format!("{:?}", e), j));
+            j["bytes"] = json!(crate::util::trunc(&hex::encode(&bytes), 4000));
+            j["nesting_depth_of_encoding"] = json!(depth);
+            return Err(Failure::new("decode_of_own_encoding_fails", format!("{:?} (nesting depth of the encoding: {})", e, depth), j));
         }
     };
     let a = canon_of(tx);
